@@ -213,8 +213,17 @@ def scan(state, groups, tid):
         fl, fr = flux(Lst), flux(Rst)
         cs = math.sqrt(scale["p"] / scale["rho"])
         floors = [scale["rho"] * (b_ - a_), scale["rho"] * cs * (b_ - a_), scale["p"] * (b_ - a_)]
+        # the table smears every discontinuity over about one cell: the integral is uncertain by (cell width) x (jump of the integrand)
+        # for each shock / contact (not for the fans, which the table resolves); passed to the specification as slack
+        smear = np.zeros(3)
+        for i_, ch in enumerate(pat):
+            if ch in "SC":
+                smear += np.abs(cons(plats[i_]) - cons(plats[i_ + 1])) * dxcell
+        terms = [[tot[q], -init[q], -t * fl[q], t * fr[q]] for q in range(3)]
+        U = [max(max(abs(z) for z in terms[q]), floors[q] * 1e-2) for q in range(3)]
         ev.append({"k": "Int", "tid": tid, "window_ok": True,
-                   "bal": {n_: E.e8([tot[q], -init[q], -t * fl[q], t * fr[q]], floors[q] * 1e-2) for q, n_ in enumerate(("mass", "mom", "ener"))}})
+                   "slack": {n_: int(min(10**8, round(1e8 * smear[q] / U[q]))) for q, n_ in enumerate(("mass", "mom", "ener"))},
+                   "bal": {n_: E.e8(terms[q], floors[q] * 1e-2) for q, n_ in enumerate(("mass", "mom", "ener"))}})
     if "ADM" in groups:
         bnd = {}
         for k in ("rho", "p"):
